@@ -30,6 +30,14 @@ claim("C20",
       "Trusted: the go/ast translator; sync.Mutex semantics; the Go memory model, scheduler and os/exec are not modelled - the race detector run is the link (partial in that respect). Thread-local statements (switch, defer registration, log) are folded into the adjacent shared step.",
       "Coq proof (Owicki-Gries style invariants over an interleaving semantics) + translator/reflection + -race correspondence", "DESIGN.md §5 C20")
 
+claim("C10",
+      "Coq theorems over all constant tables: a defined type is an enum iff some non-opted-out typed constant of its package exists; members = exactly those constants (values, comments, export status); "
+      "the iota flag is sound (integer-backed, exported values 0..n-1 in the reported order - pigeonhole + sorted-permutation argument) and complete for every enum whose exported values are a permutation of 0..n-1; the walk never crashes. "
+      "Tied to /repo by comparing, for every corpus and synthesised module, the model's enum table computed from go/types facts with the table of analysis.fetchEnumsAndUnions (hook), "
+      "and by evaluating the property itself in Coq on the observed table.",
+      "Trusted: the facts extractor (go/types constants, go/ast candidate nodes); scope.Names() order; sort.Sort modelled as a stable sort (enums have < 12 members in the cases).",
+      "Coq proof (pigeonhole/permutation) + facts-to-table correspondence + property evaluated on observed tables", "DESIGN.md §5 C10")
+
 NOT_YET = "check not built yet in this round (planned, see DESIGN.md §6)"
 
 checks, na = [], []
